@@ -55,6 +55,11 @@ def mk_spending(rnd, fund, pos, ninputs=None, same_fund_decoy=False):
     t.vin = [dict(txid=bytes(rnd.getrandbits(8) for _ in range(32)), n=rnd.randrange(3), script=b'', seq=rnd.choice([0xffffffff, 0xfffffffe, 10]), wit=[]) for _ in range(nin)]
     t.vin[idx]['txid'] = fund.txid()
     t.vin[idx]['n'] = pos
+    # other inputs of the spending transaction may be segwit inputs (mixed transactions): their witness must not influence
+    # how the debugged input is set up or hashed
+    for j in range(nin):
+        if j != idx and rnd.random() < 0.35:
+            t.vin[j]['wit'] = [bytes(rnd.getrandbits(8) for _ in range(rnd.choice([1, 33, 71])))] * rnd.choice([1, 2])
     decoy = None
     if same_fund_decoy and nin >= 2 and len(fund.vout) >= 2:
         # a second input spending another output of the same funding transaction (exercises --select)
